@@ -38,6 +38,9 @@ def stepC05 (toks : List String) : Option String :=
   | ["r_ofcellranges", q, w, crs] => do
     let q ← qtyOf q; let w ← w.toNat?; let crs ← parseCellRanges crs
     pure (showRngs (rangesOfCellRanges q w crs))
+  | ["r_nuniq", w, d, l] => do
+    let w ← w.toNat?; let d ← d.toNat?; let l ← parseRngs l
+    pure (showNats (((cellsOf Params.hpx w d l).map fun c => uniqHpx c.1 c.2).mergeSort))
   | ["u_hpx", d, i] => do let d ← d.toNat?; let i ← i.toNat?; pure (toString (uniqHpx d i))
   | ["u_fromhpx", u] => do let u ← u.toNat?; let c := fromUniqHpx u; pure s!"{c.1}/{c.2}"
   | ["u_gen", q, d, i] => do let q ← qtyOf q; let d ← d.toNat?; let i ← i.toNat?; pure (toString (toUniqGen q d i))
